@@ -180,6 +180,29 @@ func init() {
 			u.note("LabelSet.Fingerprint: uninterpreted function of the label-set object (label sets immutable once stored)")
 			return intV(t)
 		},
+		"slices.Clone": func(fr *Frame, st *State, a []Val, in ssa.Instruction) Val {
+			// slices.Clone(s): nil for nil, otherwise a new backing array holding the same elements
+			u := fr.u
+			ci := in.(ssa.CallInstruction)
+			stt, ok := ci.Common().Args[0].Type().Underlying().(*types.Slice)
+			if !ok {
+				u.unsup("slices.Clone on non-slice")
+			}
+			src := a[0].T
+			h := u.arrHeap(stt.Elem())
+			es := u.enc.sortOf(stt.Elem())
+			hc := u.heapCur(st, h)
+			r := u.newRef(st)
+			newRow := u.enc.freshConst("row", "(Array Int "+es+")")
+			j := fmt.Sprintf("j!%d", u.enc.fresh)
+			u.enc.fresh++
+			u.assume(fmt.Sprintf("(forall ((%s Int)) (! (=> (and (<= 0 %s) (< %s (sl_len %s))) (= (select %s %s) (select (select %s (sl_base %s)) (+ (sl_off %s) %s)))) :pattern ((select %s %s))))",
+				j, j, j, src, newRow, j, hc, src, src, j, newRow, j))
+			u.heapStoreAt(st, h, r, newRow)
+			isNil := eq(app("sl_base", src), "0")
+			res := ite(isNil, "(mk_slice 0 0 0 0)", app("mk_slice", r, "0", app("sl_len", src), app("sl_len", src)))
+			return Val{T: res, S: "Slice", Ty: ci.Common().Args[0].Type()}
+		},
 		"maps.Clone": func(fr *Frame, st *State, a []Val, in ssa.Instruction) Val {
 			// maps.Clone(m): nil for a nil map, otherwise a new map object with the same keys and values
 			u := fr.u
